@@ -4,8 +4,44 @@
    (Generated/Gen_Strop.v: reserved lists incl. Python's keywords+builtins, reserved patterns and
    encoding rules as regex ASTs, prefixes, handler kinds) and with the interpreter's \s \d isspace tables.
    Strings are lists of code points; identifier types are arbitrary strings. *)
-From Verif Require Import StropInst StropThmRe StropThmEnc StropThm StropThmInst.
+From Verif Require Import StropInst StropThmRe StropThmEnc StropThm StropThmPipe StropThmInst Gen_Pin_strop_methods.
 Open Scope N_scope.
+
+(* ---- source tie of the model itself ----
+   (a) the body of TokenEncoder.strop is translated statement by statement into the step list Gen_Strop.strop_pipeline
+       (walker gen_c09.strop_pipeline: order of the stages, which transform each dry-run check re-runs, which handler attribute
+       each `except` consults, the final re-verification); it IS the list the model was written for, and the model's `strop`
+       is its interpretation (run_pipeline) -- for the shipped and for every override configuration;
+   (b) the methods the steps call (_encode, _strop_by_keyword, _strop_by_pattern, _do_for_type_and_all, _matches,
+       _encoding_filter, encode_character, __init__, the `any` synthesis) and Language.filter_id / _token_encoder of c, cpp, py,
+       default_filter_id_for_target, filter_short_reference_name have the normalised AST the hand model was written for. *)
+Theorem pipeline_is_model : strop_pipeline = model_pipeline strop_reverifies.
+Proof. exact pipeline_is_model_thm. Qed.
+Print Assumptions pipeline_is_model.
+
+Theorem strop_is_regenerated_pipeline : forall k l ty s,
+  strop_sel k l ty s = run_pipeline py_uni py_isspace (cfg_sel k l) strop_pipeline ty s.
+Proof. exact strop_is_regenerated_pipeline_thm. Qed.
+Print Assumptions strop_is_regenerated_pipeline.
+
+(* (c) the C / C++ failure handlers are translated (regex parts as ASTs, the returned string as a template); interpreted with
+       the regex semantics of Common/Regex.v they are the function `handler_und` the model uses for kind HUnd *)
+Theorem handlers_translated_are_model : forall h, In h handlers_translated ->
+  forall s, handler_gen py_uni (fst (fst h)) (snd (fst h)) (snd h) s = handler_und s.
+Proof. exact handlers_translated_und_thm. Qed.
+Print Assumptions handlers_translated_are_model.
+
+Example nv_handlers_translated : length handlers_translated = 2%nat.
+Proof. reflexivity. Qed.
+
+Example C09_strop_methods_shape_pinned : pin_strop_methods_ok = true.
+Proof. reflexivity. Qed.
+
+(* the same soundness statement for every configuration override the correspondence run exercises (cfg_sel k, k >= 1) *)
+Theorem strop_sound_overrides : forall k l (ty s t : str), s <> [] -> strop_sel k l ty s = Ok t ->
+  valid_ident t = true /\ reserved_sel k l t = false /\ pattern_sel k l ty t = false.
+Proof. exact strop_sound_sel. Qed.
+Print Assumptions strop_sound_overrides.
 
 (* ---- soundness: whatever is returned is a valid, unreserved identifier -- ALL strings, ALL id types ---- *)
 Theorem strop_sound_c : forall (ty s t : str), s <> [] -> strop_c ty s = Ok t ->
